@@ -298,6 +298,12 @@ fn log_quality_state(
     }
 }
 
+/// Verification hook (feature `verif-hooks`): the private soft-cap factor.
+#[cfg(feature = "verif-hooks")]
+pub fn verif_cc_soft_cap_multiplier(conn: &SrtlaConnection) -> f64 {
+    cc_soft_cap_multiplier(conn)
+}
+
 // Most enhanced-mode integration tests live in src/tests/sender_tests.rs;
 // the pure cap-helper unit tests sit here so they don't drag in the
 // async runtime needed to spin up test connections.
